@@ -157,6 +157,50 @@ def record(rep: Report, cases: list, rng: random.Random):
     return traces
 
 
+def integer_data(rep: Report, rng: random.Random):
+    """A user's own loss on integer-typed data (ids, labels): every row handed to the loss is a row of the data set as it
+    was given -- same integer values (beyond 2^24 and 2^53 / 2: a cast to float would round them), still an integer type --
+    and the condition row is the one given with that x row."""
+    import equinox as eqx
+    import optax
+    from flowjax.train import fit_to_data
+    for n, batch, vp in [(11, 3, 0.3), (8, 20, 0.25), (6, 1, 0.5)]:
+        ids = (2**24 + 1 + 2 * np.arange(n, dtype=np.int64)) * (2**30 if n == 11 else 1)          # odd, > 2^24; once > 2^53
+        x = jnp.asarray(np.stack([ids, ids % 7], axis=1))
+        cond = jnp.asarray((ids * 3 + 1)[:, None])
+        seen = []
+
+        def rec(xb, cb):
+            seen.append((np.asarray(xb), np.asarray(cb)))
+
+        def loss_fn(params, static, x, condition=None, key=None):
+            jax.debug.callback(rec, x, condition, ordered=True)
+            return (params[0] - 1.0) ** 2 + 0.0 * x.sum()
+        rep.count(1, ("integer-data", n, batch, vp))
+        try:
+            fit_to_data(jr.PRNGKey(n), (jnp.asarray(0.0),), x, condition=cond, loss_fn=loss_fn, max_epochs=2, batch_size=batch, val_prop=vp,
+                        optimizer=optax.sgd(0.1), show_progress=False)
+            jax.effects_barrier()
+        except Exception as e:  # noqa: BLE001
+            rep.violation({"data": "integer", "n": n, "error": type(e).__name__}, f"fit_to_data on integer-typed data: {type(e).__name__}: {str(e)[:200]}")
+            continue
+        idset = {int(v): i for i, v in enumerate(ids)}
+        for xb, cb in seen:
+            bad = None
+            if not (np.issubdtype(xb.dtype, np.integer) and np.issubdtype(cb.dtype, np.integer)):
+                bad = f"the loss received dtypes {xb.dtype} / {cb.dtype} for integer data"
+            else:
+                for r in range(xb.shape[0]):
+                    i = idset.get(int(xb[r, 0]))
+                    if i is None or int(xb[r, 1]) != int(ids[i] % 7) or int(cb[r, 0]) != int(ids[i] * 3 + 1):
+                        bad = f"row {xb[r].tolist()} with condition {cb[r].tolist()} is not a row of the data set with its own condition"
+                        break
+            if bad:
+                rep.violation({"data": "integer", "n": n, "batch": batch, "what": "rows handed to the loss"},
+                              f"fit_to_data(n={n}, batch_size={batch}, val_prop={vp}) with integer ids: {bad}")
+                break
+
+
 def binding_selftest(rep: Report, traces: list):
     """Demonstrates that the trace specification is bound to the recordings: each corruption of a recorded execution must be
     rejected, at the clause it violates.  A corruption that is accepted is a machinery failure (the check would be vacuous)."""
@@ -228,6 +272,7 @@ def main():
     stats = tracecheck.check(rep, "Trace_FitToData", "Trace_FitToData_I.cfg", traces, FTD_GUARDS, pid=PID,
                              describe=lambda tr: {k: tr["cfg"][k] for k in ("n", "batch", "nval", "maxep", "hascond")})
     binding_selftest(rep, traces)
+    integer_data(rep, rng)
     rep.set("traces_validated_against_impl", len(traces))
     rep.set("trace_validation", stats)
     rep.set("events_validated", sum(len(tr["ev"]) for tr in traces))
